@@ -116,6 +116,10 @@ class Ctx(object):
             'wall_s': round(time.time() - self.t0, 2), 'violations': self.violations,
         }
         edir = EVIDENCE_DIR if not self.pid.startswith('X') else ROOT / 'evidence_ext'
+        if getattr(self, 'partial', False):
+            # a --part / --replay run covers only a piece of the check: it must not replace the evidence
+            # record of the last full run
+            edir = ROOT / 'evidence_partial'
         edir.mkdir(exist_ok=True)
         with open(edir / f'{self.pid}.json', 'w') as f:
             json.dump(ev, f, indent=1, default=str)
